@@ -76,7 +76,8 @@ FUNCS = ["isal_inflate_stateless (driver loop + final read-ahead undo, crc_flag 
          "decode_huffman_code_block_stateless_base", "decode_next_lit_len", "decode_next_dist", "byte_copy",
          "static_lit_huff_code / static_dist_huff_code (igzip/static_inflate.h)", "rfc_lookup_table",
          "set_codes", "bit_reverse2", "setup_dynamic_header (prefix up to the code-length-code lengths)",
-         "make_inflate_huff_code_dist + decode_next_dist (C06 only, concrete code-length shapes)"]
+         "make_inflate_huff_code_dist + decode_next_dist (C06 only, concrete code-length shapes)",
+         "check_zlib_checksum, check_gzip_checksum, fixed_size_read (C02 only: trailer consumption / end position)"]
 STUBS = ["stored family: bodies of setup_static_header/setup_dynamic_header removed and the Huffman block decoder replaced by an "
          "assert-unreachable glue (both unreachable under the stated assumption)",
          "dynamic-header prefix: bodies of make_inflate_huff_code_*, set_and_expand_lit_len_huffcode, decode_next_header removed "
@@ -105,7 +106,9 @@ def bounds(valid_only):
     return {"stored": "input length 5..12 quick / 0..12 thorough, avail_out 0..8, all bytes symbolic",
             "fixed_huffman": "input 1-2 bytes quick, 1-3 (4 attempted) thorough; avail_out in {0,3} quick, {0,1,2,3,16} thorough; bfinal symbolic",
             "set_codes": "alphabets of 2..4 symbols quick, 1..8,12,19 thorough; all length vectors over 0..15",
-            "dyn_header_prefix": "3 arbitrary bytes with BTYPE=10",
+            "dyn_header_prefix": "3 arbitrary bytes with BTYPE=10 or 11",
+            "trailer (C02)": "bits in the bit buffer 0..64 (9 values quick, all 65 thorough) x following input bytes 0..11 (4 / 10 values), "
+                             "bit-buffer contents, input bytes, running checksum and total_out symbolic; zlib and gzip",
             "mkdist (C06)": "15 concrete distance code-length vectors (empty, single code, complete, incomplete, long codes > 10 bits, "
                             "static 30x5); previous contents of the lookup structure (1104 x 16 bit) and the 15 looked-up bits symbolic",
             "flavour": "valid streams only" if valid_only else "arbitrary bytes"}
@@ -121,3 +124,11 @@ def mkdist_query(i, lens, core=False, witness=False):
     p = dict(harness="harness/C06/h_mkdist.c", units=["igzip/hufftables_c.c"], defines=FAST, hdefines=["LENS=%s" % lens],
              unwind=33, unwindset=["harness.2:1026", "harness.3:1026", "harness.4:100", "rfc_decode.0:17"], witness=witness)
     return Query("mkdist/shape%02d" % i, R, p, core=core, family="mkdist", weight=2)
+
+
+def trailer_query(kind, ril, avail, core=False, witness=False):
+    """C02: check_zlib_checksum/check_gzip_checksum from an arbitrary bit buffer: exact end position."""
+    hdef = ["RIL=%d" % ril, "AVAIL=%d" % avail] + (["H_GZIP"] if kind == "gzip" else [])
+    p = dict(harness="harness/C02/h_trailer.c", units=["igzip/hufftables_c.c"], defines=FAST, hdefines=hdef,
+             unwind=max(10, 8 + avail + 2), witness=witness)
+    return Query("trailer_%s/ril%d_av%d" % (kind, ril, avail), R, p, core=core, family="trailer_" + kind, weight=1)
